@@ -12,14 +12,35 @@
      where cpre is the set-level controllable predecessor of C11, and the
      three nested loops stop by convergence (fuel >= |valuations| suffices).
 
-   The game-semantic reading of that fixpoint (existence of a winning
-   strategy over infinite plays) is the classical GR(1) theorem; its safety
-   half is C02 (closure, non-blocking), its liveness half is not mechanised
-   here (see DESIGN §6 C01). *)
+   GAME SEMANTICS (theories/L4/Plays.v .. Determinacy.v): for non-empty lists
+   of persistence and recurrence predicates and every in-range state s,
+
+     region(s) = true   <->  the component has a strategy (a function of the
+                             history; Moore: not reading the next environment
+                             value) such that EVERY infinite play from s that is
+                             consistent with it keeps the component's action for
+                             as long as the mode obliges it to (strict: while the
+                             environment kept its action at all earlier steps;
+                             non-strict: also at the current step) and, if the
+                             environment keeps its action forever, has some
+                             persistence predicate holding from some point on or
+                             every recurrence predicate holding infinitely often
+                                                   (C01_region_is_winning_region)
+     region(s) = false   ->  the environment has a strategy (seeing the
+                             component's next value iff the component is Moore)
+                             against which NO play from s satisfies that
+                             objective            (C01_outside_environment_wins)
+
+   No winning valuation is missing and no losing one is included.  The winning
+   strategy is built from the ranks of the fixpoint (StreettStrategy.v), the
+   environment's from the Rabin(1) strategy of the dual game (RabinStrategy.v,
+   Duality.v).  These two theorems depend on the standard-library axiom
+   Classical_Prop.classic (infinite plays; see Print Assumptions below); the
+   fixpoint theorems are axiom-free. *)
 From Coq Require Import List Bool Arith Lia.
-From Omega Require Import L4.Arena L4.Kleene L4.GameSpec L4.Mu L4.GR1Spec.
+From Omega Require Import L4.Arena L4.Kleene L4.GameSpec L4.Mu L4.GR1Spec L4.Plays L4.Determinacy.
 From OmegaGen Require Import FixpointGen Gr1Gen.
-From OmegaGP Require Import FixpointProofs StreettProofs.
+From OmegaGP Require Import FixpointProofs StreettProofs GameSemantics.
 
 Section C01.
 Variables nc nx ny : nat.
@@ -51,8 +72,56 @@ Theorem C01_spec_inner_is_greatest_fixpoint : forall P u,
          (sX nc nx ny moore plus_one E S P u).
 Proof. exact (sX_is_gfp nc nx ny moore plus_one E S). Qed.
 
+(* ---- game semantics ---- *)
+Theorem C01_region_is_winning_region : forall c fuel s,
+  c < nc -> 0 < length goals -> 0 < length holds -> NV <= fuel ->
+  fst s < nx -> snd s < ny ->
+  (fst (fst (Gr1Gen.solve_streett_game nc nx ny E S holds goals moore plus_one fuel))
+     (stv c s) = true
+   <-> comp_wins nx ny moore (win_streett c E S holds goals plus_one) s).
+Proof.
+  intros c fuel s Hc HR HP Hf.
+  exact (streett_solved_exact nc nx ny E S holds goals moore plus_one c Hc HR HP fuel Hf s).
+Qed.
+
+Theorem C01_outside_environment_wins : forall c fuel s,
+  c < nc -> 0 < length goals -> 0 < length holds -> NV <= fuel ->
+  fst s < nx -> snd s < ny ->
+  fst (fst (Gr1Gen.solve_streett_game nc nx ny E S holds goals moore plus_one fuel))
+    (stv c s) = false ->
+  env_prevents nx ny moore (win_streett c E S holds goals plus_one) s.
+Proof.
+  intros c fuel s Hc HR HP Hf.
+  exact (streett_solved_complete nc nx ny E S holds goals moore plus_one c Hc HR HP fuel Hf s).
+Qed.
+
+(* the same for the specification itself *)
+Theorem C01_spec_is_winning_region : forall c s,
+  c < nc -> 0 < length goals -> 0 < length holds -> fst s < nx -> snd s < ny ->
+  (spec (stv c s) = true <-> comp_wins nx ny moore (win_streett c E S holds goals plus_one) s).
+Proof.
+  intros c s Hc HR HP.
+  exact (streett_region_exact nc nx ny moore plus_one E S holds goals c Hc HR HP s).
+Qed.
+
 End C01.
 
+Import ListNotations.
+Local Open Scope bool_scope.
+(* non-vacuity: a 2x2 game with both winning and losing states *)
+Example C01_region_example :
+  let E : bdd := fun v => true in
+  let S : bdd := fun v => Nat.eqb (vyp v) (vy v) in        (* y never changes *)
+  let P : bdd := fun v => false in
+  let R : bdd := fun v => Nat.eqb (vy v) 1 in              (* []<> (y = 1) *)
+  map (fun s => fst (fst (Gr1Gen.solve_streett_game 1 2 2 E S [P] [R] false true 20))
+                  (stv 0 s)) [(0, 0); (0, 1); (1, 0); (1, 1)]
+  = [false; true; false; true] /\ Kleene.NV 1 2 2 <= 20.
+Proof. vm_compute. split; [reflexivity|repeat constructor]. Qed.
+
+Print Assumptions C01_region_is_winning_region.
+Print Assumptions C01_outside_environment_wins.
+Print Assumptions C01_spec_is_winning_region.
 Print Assumptions C01_streett_fixpoint_exact.
 Print Assumptions C01_spec_outer_is_greatest_fixpoint.
 Print Assumptions C01_spec_middle_is_least_fixpoint.
